@@ -10,7 +10,9 @@ combined. Decided by the reflected polynomial normaliser and given their meaning
   * for each law, `dWdIk = ∂W/∂Ik` and `d2WdIkdIl = ∂(dWdIk)/∂Il` (with `∂/∂I3 = (1/6w⁵) ∂/∂w`), the second
     derivatives are symmetric, and the reference configuration is energy- and stress-free for all parameter values;
   * a superposed rigid rotation leaves `C = FᵀF`, hence every invariant and the energy, unchanged.
-PARTIAL: CiarletGeymonat (logarithm), HolzapfelOgden (exponentials, fibre invariants), user energies through automatic
+CiarletGeymonat carries a volumetric term `−K log √I3`: its energy is translated as a Laurent polynomial plus `L · log w`
+and the same statements are proved with `d/dw log w = 1/w` (`ciarletGeymonat_*`).
+PARTIAL: HolzapfelOgden (exponentials, fibre invariants), user energies through automatic
 differentiation, the nonlinear element operators (tangent = derivative of the residual) and the discrete energy balance
 of the midpoint scheme are decided on the real code by the harness (finite differences, long free-motion runs), not proved.
 -/
@@ -34,6 +36,9 @@ theorem neoHookean_checked : lawOK C18.NeoHookean_W C18.NeoHookean_dW C18.NeoHoo
 theorem mooneyRivlin_checked : lawOK C18.MooneyRivlin_W C18.MooneyRivlin_dW C18.MooneyRivlin_d2W = true := by decide +kernel
 theorem saintVenantKirchhoff_checked :
     lawOK C18.SaintVenantKirchhoff_W C18.SaintVenantKirchhoff_dW C18.SaintVenantKirchhoff_d2W = true := by decide +kernel
+
+theorem ciarletGeymonat_checked :
+    lawLogOK C18.CiarletGeymonat_W C18.CiarletGeymonat_Wlog C18.CiarletGeymonat_dW C18.CiarletGeymonat_d2W = true := by decide +kernel
 
 /-! ### meaning: invariants -/
 
@@ -115,6 +120,37 @@ theorem saintVenantKirchhoff_tangent_is_derivative {a : Nat} (ha : a < 3) (x : N
     FirstDerivs (entry1 C18.SaintVenantKirchhoff_dW a)
       [entry2 C18.SaintVenantKirchhoff_d2W a 0, entry2 C18.SaintVenantKirchhoff_d2W a 1, entry2 C18.SaintVenantKirchhoff_d2W a 2] x :=
   law_second_derivatives (parts saintVenantKirchhoff_checked).2.1 ha x hw
+
+/-! ### CiarletGeymonat: energy with the term `−K log √I3 = −3K log w` -/
+
+/-- first derivatives of an energy `P/w^m + L·log w` -/
+def FirstDerivsLog (W : PExpr × Nat) (L : PExpr) (dW : List (PExpr × Nat)) (x : Nat → ℝ) : Prop :=
+  HasDerivAt (fun t : ℝ => evalLlog (Function.update x 0 t) W L) (evalL x (entry1 dW 0)) (x 0) ∧
+  HasDerivAt (fun t : ℝ => evalLlog (Function.update x 1 t) W L) (evalL x (entry1 dW 1)) (x 1) ∧
+  HasDerivAt (fun w : ℝ => evalLlog (Function.update x 2 w) W L) (6 * (x 2) ^ 5 * evalL x (entry1 dW 2)) (x 2)
+
+theorem law_first_derivatives_log {W : PExpr × Nat} {L : PExpr} {dW : List (PExpr × Nat)} (h : lawFirstLogOK W L dW = true)
+    (x : Nat → ℝ) (hw : x 2 ≠ 0) : FirstDerivsLog W L dW x := by
+  simp only [lawFirstLogOK, Bool.and_eq_true] at h
+  obtain ⟨⟨⟨⟨_, h0⟩, h1⟩, h2⟩, hL⟩ := h
+  exact ⟨dInvLog_sound (by norm_num) h0 hL x hw, dInvLog_sound (by norm_num) h1 hL x hw, dI3Log_sound h2 hL x hw⟩
+
+private theorem partsLog {W : PExpr × Nat} {L : PExpr} {dW : List (PExpr × Nat)} {d2W : List (List (PExpr × Nat))}
+    (h : lawLogOK W L dW d2W = true) : lawFirstLogOK W L dW = true ∧ lawSecondOK dW d2W = true ∧ refOK W dW = true := by
+  simp only [lawLogOK, Bool.and_eq_true] at h
+  exact ⟨h.1.1, h.1.2, h.2⟩
+
+/-- the energy is `K(√I3 − log √I3 − 1) + K1 (I1 I3^(−1/3) − 3) + K2 (I2 I3^(−2/3) − 3)`: the log coefficient is `−3K` -/
+theorem ciarletGeymonat_log_coefficient : PExpr.eqv C18.CiarletGeymonat_Wlog (.mul (.const (-3)) (.var 5)) = true := by decide +kernel
+
+theorem ciarletGeymonat_stress_is_derivative (x : Nat → ℝ) (hw : x 2 ≠ 0) :
+    FirstDerivsLog C18.CiarletGeymonat_W C18.CiarletGeymonat_Wlog C18.CiarletGeymonat_dW x :=
+  law_first_derivatives_log (partsLog ciarletGeymonat_checked).1 x hw
+
+theorem ciarletGeymonat_tangent_is_derivative {a : Nat} (ha : a < 3) (x : Nat → ℝ) (hw : x 2 ≠ 0) :
+    FirstDerivs (entry1 C18.CiarletGeymonat_dW a)
+      [entry2 C18.CiarletGeymonat_d2W a 0, entry2 C18.CiarletGeymonat_d2W a 1, entry2 C18.CiarletGeymonat_d2W a 2] x :=
+  law_second_derivatives (partsLog ciarletGeymonat_checked).2.1 ha x hw
 
 /-! ### rigid rotations -/
 
